@@ -59,24 +59,24 @@ def gate {V} [Inhabited V] (ops : Ops V) (t : Node V) (lims : List (V × V)) (as
 /-! ## how comparison operators build assertion objects (`ArithmeticMixin`, `ComparisonAssertion`) -/
 
 /-- `x < y`, `x <= y`, `x > y`, `x >= y` on priors / expressions -/
-inductive Cmp | lt | le | gt | ge
+inductive CmpOp | lt | le | gt | ge
   deriving Repr, DecidableEq, Inhabited
 
-def Cmp.strict : Cmp → Bool
+def CmpOp.strict : CmpOp → Bool
   | .lt | .gt => true
   | _ => false
 
-def Cmp.ascending : Cmp → Bool
+def CmpOp.ascending : CmpOp → Bool
   | .lt | .le => true
   | _ => false
 
 /-- `x op y` -/
-def buildCmp {V} (x : Node V) (op : Cmp) (y : Node V) : Asrt V :=
+def buildCmp {V} (x : Node V) (op : CmpOp) (y : Node V) : Asrt V :=
   if op.ascending then .cmp op.strict x y else .cmp op.strict y x
 
 /-- `(assertion) op z` for a comparison assertion: `__lt__/__le__` continue from the *greater*
 operand, `__gt__/__ge__` from the *lower* operand -/
-def chainCmp {V} (a : Asrt V) (op : Cmp) (z : Node V) : Asrt V :=
+def chainCmp {V} (a : Asrt V) (op : CmpOp) (z : Node V) : Asrt V :=
   match a with
   | .cmp _ l g => .and a (if op.ascending then buildCmp g op z else buildCmp l op z)
   | _ => a
